@@ -1,5 +1,5 @@
 (* C10 - DWT synthesis equals PyWavelets on arbitrary coefficient pyramids (one level, row pass).  Statements only. *)
-From PW Require Import Base.Ops Base.Sum Base.Sig Base.Tensor Model.Dwt Spec.Line Proofs.DwtNF Proofs.LineTheory Proofs.SfbNF Proofs.C10Proofs Proofs.C10Proofs2D.
+From PW Require Import Base.Ops Base.Sum Base.Sig Base.Tensor Model.Dwt Spec.Line Proofs.DwtNF Proofs.LineTheory Proofs.SfbNF Proofs.C10Proofs Proofs.C10Proofs2D Proofs.Per2D.
 
 (* zero / symmetric / reflect / periodic: for ANY lo, hi of equal shape (not only transforms of a signal) the model of
    sfb1d returns PyWavelets' idwt closed form  sum_k lo[k] rec_lo[m+L-2-2k] + hi[k] rec_hi[m+L-2-2k], length 2n-L+2 *)
@@ -36,6 +36,21 @@ Theorem C10_level_2d :
                           (fun p q => tf highs n (3*c+1) p q) (fun p q => tf highs n (3*c+2) p q) i j).
 Proof. exact @SFB2D_pywt. Qed.
 Print Assumptions C10_level_2d.
+
+(* periodization: circular idwt2 for ANY four bands, under the guard filter length - 2 <= output length of each axis *)
+Theorem C10_level_2d_per :
+  forall (R:Type) (Op:Ops R) (Rth:RingOk Op) (low highs:@ten R) Lr gr0 gr1 Lc gc0 gc1,
+  tN highs = tN low -> tC highs = 3 * tC low -> tH highs = tH low -> tW highs = tW low ->
+  2 <= Lr -> Lr mod 2 = 0 -> 2 <= Lc -> Lc mod 2 = 0 -> 0 < tC low -> 1 <= tW low -> 1 <= tH low ->
+  Lc - 2 <= 2 * tH low -> Lr - 2 <= 2 * tW low ->
+  is_ok (SFB2D_fwd Op low highs Lr gr0 gr1 Lc gc0 gc1 M_PER)
+    (fun y => tN y = tN low /\ tC y = tC low /\ tH y = 2 * tH low /\ tW y = 2 * tW low /\
+       forall n c i j, 0 <= c < tC low -> 0 <= i < 2 * tH low -> 0 <= j < 2 * tW low ->
+         tf y n c i j = pywt_idwt2_per Op Lr gr0 gr1 Lc gc0 gc1 (tH low) (tW low)
+                          (fun p q => tf low n c p q) (fun p q => tf highs n (3*c) p q)
+                          (fun p q => tf highs n (3*c+1) p q) (fun p q => tf highs n (3*c+2) p q) i j).
+Proof. exact @SFB2D_pywt_per. Qed.
+Print Assumptions C10_level_2d_per.
 
 (* what the code computes in periodization for EVERY size (characterisation, also inside the known finding) *)
 Theorem C10_level_per_row_code :
